@@ -1,3 +1,4 @@
+import McpModel.Wire.Ref
 import McpModel.Wire.Sse
 import McpModel.Wire.Result
 import McpModel.Wire.Input
@@ -231,6 +232,7 @@ inductive Clause where
   | dtWrite | badFrame | writtenDiffers
   | cwCrash (c : Crash) | cwGarbled (n : Nat) | cwLost (m : Msg)
   | logDiffers (passed logged : Nat)
+  | refRefused | refChanged | refInconsistentWritten | refInconsistentAccepted | refReencDiffers
   | dtNdReader (c : Crash) | ndNotValueByValue
   | writePanic02 | flushedEarly | notOnItsOwn | arrayNotExact | withheld (hasNotif : Bool) | lastOnItsOwn
   -- frames through the other readers
@@ -881,6 +883,41 @@ def logMonitor (passed : List Passed) (o : LogObs) : Option Clause :=
   match o with
   | .other => some .badObservation
   | .entries l => if entriesAre passed l then none else some (.logDiffers passed.length l.length)
+
+/-! ## the `CompleteReference` codec -/
+
+/-- `ref.rt`: what `json.Marshal` of a reference gave, and what `json.Unmarshal` made of the text -/
+inductive RefRtObs where
+  | refused
+  | written (v : JVal) (back : Option CRef)
+  | other
+deriving Repr, Inhabited
+
+def refRtMonitor (r : CRef) (o : RefRtObs) : Option Clause :=
+  match o with
+  | .other => some .badObservation
+  | .refused => if refCheck r = .ok () then some .refRefused else none
+  | .written _ back =>
+    if refCheck r = .ok () then (if back = some r then none else some .refChanged)
+    else some .refInconsistentWritten
+
+/-- `ref.dec`: what `json.Unmarshal` made of a JSON value, and what `json.Marshal` wrote for the result -/
+inductive RefDecObs where
+  | rejected
+  | accepted (r : CRef) (reenc : Option JVal)
+  | other
+deriving Repr, Inhabited
+
+def refDecMonitor (o : RefDecObs) : Option Clause :=
+  match o with
+  | .other => some .badObservation
+  | .rejected => none
+  | .accepted r reenc =>
+    if refCheck r = .ok () then
+      (match reenc, encodeRef r with
+        | some w, .ok v => if sameJ w v then none else some .refReencDiffers
+        | _, _ => some .refReencDiffers)
+    else some .refInconsistentAccepted
 
 /-! ## the byte stream of an io connection through its reader goroutine -/
 
